@@ -198,6 +198,7 @@ class P2PConnection:
         "_response_waiter",
         "address",
         "disconnect_hook",
+        "peer_seen",
         "rate_limit",
         "sequence_number",
         "xknx",
@@ -215,6 +216,8 @@ class P2PConnection:
         self.sequence_number = self._sequence_number_generator()
         self._expected_sequence_number = 0
         self._connected = False
+        # any telegram of the peer was received on this connection - there is a device
+        self.peer_seen = False
 
         self._last_response_time: float = 0
 
@@ -289,6 +292,7 @@ class P2PConnection:
 
     def process(self, telegram: Telegram) -> None:
         """Process incoming telegrams."""
+        self.peer_seen = True
         if isinstance(telegram.tpci, TDisconnect):
             logger.info("%s disconnected management session.", self.address)
             self._connected = False
